@@ -36,7 +36,7 @@ from dulwich.object_store import (
     PackBasedObjectStore,
     read_packs_file,
 )
-from dulwich.objects import ShaFile
+from dulwich.objects import ZERO_SHA, ShaFile
 from dulwich.pack import (
     Pack,
     PackData,
@@ -394,6 +394,12 @@ class TransportRefsContainer(RefsContainer):
             realname = realnames[-1]
         except (KeyError, IndexError, SymrefLoop):
             realname = name
+        if old_ref is not None:
+            orig_ref = self.read_loose_ref(realname)
+            if orig_ref is None:
+                orig_ref = self.get_packed_refs().get(realname, ZERO_SHA)
+            if orig_ref != old_ref:
+                return False
         if realname == b"HEAD":
             transport = self.worktree_transport
         else:
@@ -440,6 +446,12 @@ class TransportRefsContainer(RefsContainer):
         :return: True if the delete was successful, False otherwise.
         """
         self._check_refname(name)
+        if old_ref is not None:
+            orig_ref = self.read_loose_ref(name)
+            if orig_ref is None:
+                orig_ref = self.get_packed_refs().get(name, ZERO_SHA)
+            if orig_ref != old_ref:
+                return False
         # may only be packed
         transport = self.worktree_transport if name == b"HEAD" else self.transport
         with contextlib.suppress(NoSuchFile):
